@@ -278,10 +278,14 @@ def split_line(text, version):
         return Rec(rt, pos, tags, version)
     if version == "gfa1":
         raise ParseError("unknown GFA1 record type %r" % rt)
-    # custom record
+    # custom record: the tags are the longest run of trailing fields each of which is a valid tag (name,
+    # datatype and a value the datatype accepts) with a name not used further right; everything before is positional
     first_tag = len(f)
+    seen = set()
     for i in range(len(f) - 1, 0, -1):
-        if TAG_RE.fullmatch(f[i]):
+        m = TAG_RE.fullmatch(f[i])
+        if m and m.group(1) not in seen and m.group(2) in TAG_TYPES and accepts(m.group(2), m.group(3)):
+            seen.add(m.group(1))
             first_tag = i
         else:
             break
